@@ -26,6 +26,9 @@ def L2 (l : Line) : Int := (strokeDir l).x ^ 2 + (strokeDir l).y ^ 2
 /-- `max(|dx|, |dy|)` of the stroke direction. -/
 def majorLen (l : Line) : Int := max (strokeDir l).x.natAbs (strokeDir l).y.natAbs
 
+/-- `min(|dx|, |dy|)` of the stroke direction. -/
+def minorLen (l : Line) : Int := min (strokeDir l).x.natAbs (strokeDir l).y.natAbs
+
 theorem strokeDir_eq (l : Line) :
     (strokeDir l).x = Line.dxOf (Thick.paramLine l) ∧ (strokeDir l).y = Line.dyOf (Thick.paramLine l) := by
   unfold strokeDir Thick.paramLine Line.dxOf Line.dyOf
@@ -56,6 +59,13 @@ theorem majorLen_eq (l : Line) : majorLen l = (Thick.ctxOf l).D := by
   rw [hx, hy]
   split <;> omega
 
+
+theorem minorLen_eq (l : Line) : minorLen l = (Thick.ctxOf l).d := by
+  obtain ⟨hx, hy⟩ := strokeDir_eq l
+  show _ = Line.dmin (Thick.paramLine l)
+  unfold minorLen Line.dmin Line.yMajor Line.aabs
+  rw [hx, hy]
+  split <;> omega
 
 /-- The band form is twice the cross product, up to the orientation of the line's step pair. -/
 theorem ph_cross (l : Line) (p : Pt) :
